@@ -267,6 +267,7 @@ func clearHooks() {
 
 // solo runs body i of a scenario alone under the write monitor.
 func solo(sc *scenario, i int) soloInfo {
+	jmespath.VerifResetPools() // every execution starts like a fresh process (pools empty)
 	st, bodies := sc.build()
 	info := soloInfo{}
 	base := st.shared.Hash()
@@ -462,6 +463,7 @@ func workC12(c *shardCtx) {
 			var base snap.Digest
 			ex.NewRun = func() ([]func() interface{}, func(*vsched.Sched), func(*vsched.Exec) string) {
 				var bodies []func() interface{}
+				jmespath.VerifResetPools() // pools are emptied so that a replayed prefix meets the same objects
 				st, bodies = sc.build()
 				base = st.shared.Hash()
 				return bodies, configureHooks, func(x *vsched.Exec) string {
